@@ -1,5 +1,6 @@
 """Pool: plain typed fields (harness data, not part of xsdata)."""
 from dataclasses import dataclass, field
+from datetime import date
 
 from sim.pool.base import StableHashMeta
 from decimal import Decimal
@@ -21,6 +22,14 @@ class Kind(Enum):
 class Level(Enum):
     ONE = 1
     TWO = 2
+
+
+class FaultCode(Enum):
+    """QName-valued members: what `c:Sender` means depends on the prefix bindings in scope."""
+
+    V1_SENDER = QName("{urn:fault:v1}Sender")
+    V1_RECEIVER = QName("{urn:fault:v1}Receiver")
+    V2_SENDER = QName("{urn:fault:v2}Sender")
 
 
 @dataclass
@@ -123,3 +132,29 @@ class Shouty(metaclass=StableHashMeta):
 
     first_value: str = field(default="", metadata={"type": "Element"})
     second: int = field(default=0, metadata={"type": "Attribute"})
+
+
+@dataclass
+class Fault(metaclass=StableHashMeta):
+    class Meta:
+        name = "fault"
+        namespace = "urn:basic"
+
+    code: Optional[FaultCode] = field(default=None, metadata={"type": "Element"})
+    sub: list[FaultCode] = field(default_factory=list, metadata={"type": "Element"})
+    attr_code: Optional[FaultCode] = field(default=None, metadata={"type": "Attribute"})
+
+
+@dataclass
+class Formats(metaclass=StableHashMeta):
+    """The same lexical value under different `format=` settings."""
+
+    class Meta:
+        name = "formats"
+        namespace = "urn:basic"
+
+    b64: Optional[bytes] = field(default=None, metadata={"type": "Element", "format": "base64"})
+    b16: Optional[bytes] = field(default=None, metadata={"type": "Element", "format": "base16"})
+    dmy: Optional[date] = field(default=None, metadata={"type": "Element", "format": "%d/%m/%Y"})
+    mdy: Optional[date] = field(default=None, metadata={"type": "Element", "format": "%m/%d/%Y"})
+    plain: Optional[XmlDate] = field(default=None, metadata={"type": "Element"})
